@@ -1,6 +1,8 @@
 """C06 -- a rejected operation leaves the configuration exactly as it was."""
 from __future__ import annotations
 
+import ast
+
 from engine.order import ESCAPE, OrderAnalysis
 from engine.effects import ap_str
 from .common import CALLS, STATE, is_obs_write, not_fresh
@@ -38,8 +40,33 @@ def proxy_classes(model):
     return out
 
 
+def check_include_failures(ctx):
+    """"...or whose include file cannot be resolved": the load is abandoned *before* anything is written only if the failure leaves
+    the include step as an exception.  In every `include` implementation a handler either raises on all its paths, or the function
+    cannot return normally from it -- a handler that hands back the including tree lets load_tree start writing, and the error
+    (if it comes at all) comes from a later key."""
+    an, model = ctx.an, ctx.model
+    mixin = model.cls("IncludeFieldMixin")
+    n = 0
+    for c in mixin.subclasses(strict=True):
+        f = c.methods.get("include")
+        if f is None:
+            continue
+        g = an.cfg(f)
+        for h in [x for x in g.nodes if x.kind == "handler"]:
+            n += 1
+            p = g.path(h, lambda x: x is g.exit or x.kind == "return", may_raise=lambda x: False, from_successors=True)
+            ctx.ob("include.failure-propagates", f, h.ast.type if h.ast.type is not None else "except:", p is None,
+                   "the handler raises on every path" if p is None else
+                   "%s catches %s and carries on (returns a tree): an include that cannot be resolved no longer stops the load before "
+                   "load_tree writes the keys that come first in the document" % (f.qualname, ast.unparse(h.ast.type) if h.ast.type is not None else "everything"), node=h)
+    if n == 0:
+        ctx.ob("include.failure-propagates", mixin, "no handler in an include implementation", True, "failures of validate / open / parse leave include() as exceptions", nontrivial=False)
+
+
 def check(ctx):
     an, model = ctx.an, ctx.model
+    check_include_failures(ctx)
     state = an.summary(STATE)
     calls = an.summary(CALLS)
     esc = OrderAnalysis(an, state, is_obs_write, ESCAPE, keep_ap=not_fresh)
